@@ -146,7 +146,13 @@ fn gen_site(rng: &mut Rng, ctx_scope: char, n: &mut u32) -> Site {
         }
         10 => {
             let (t, c) = [("c", "c0"), ("k", "c1"), ("zz", "u"), ("q", "q"), ("r", "a"), ("g1_1", "g:1:1"), ("f1", "d")][rng.below(7) as usize];
-            Site { text: format!("{t} = 1;"), desc: format!("as {c}") }
+            // the value: an integer (fits every target here that has a type), or a float (does not fit the
+            // int targets `c` and `k`; the other targets are undefined or not assignable anyway)
+            if (t == "c" || t == "k") && rng.below(3) == 0 {
+                Site { text: format!("{t} = {};", ["2.5", "1.0e1", "du"][rng.below(3) as usize]), desc: format!("as {c} x") }
+            } else {
+                Site { text: format!("{t} = 1;"), desc: format!("as {c}") }
+            }
         }
         11 => match rng.below(3) {
             0 => Site { text: if rng.below(2) == 0 { format!("qubit nq{id};") } else { format!("qubit[3] nq{id};") }, desc: format!("qd {ctx_scope}") },
